@@ -154,7 +154,7 @@ func Discharge(cfg *SolverCfg, obls []*Obligation) {
 					}
 					ground = append(ground, t)
 				}
-				if len(ground) < len(as) && !containsQuant(g) {
+				if !containsQuant(g) {
 					qa := QueryGround(ground, g)
 					aa := solveGround(cfg, qa)
 					if d := os.Getenv("GVC_DUMPGROUND"); d != "" && aa.status != "unsat" {
@@ -163,14 +163,21 @@ func Discharge(cfg *SolverCfg, obls []*Obligation) {
 					if aa.ms > 1500 && os.Getenv("GVC_SLOW") != "" {
 						fmt.Printf("  slowground %s [%d/%d] %dms %s size=%d\n", o.Name, gi+1, len(goals), aa.ms, aa.status, len(qa))
 					}
+					o.Ms += aa.ms
 					if aa.status == "unsat" {
 						if o.Solver == "" {
 							o.Solver = aa.solver
 						}
-						o.Ms += aa.ms
 						continue
 					}
-					o.Ms += aa.ms
+					if aa.status == "sat" && len(ground) == len(as) {
+						// nothing was dropped: the counter-model is genuine
+						o.Status = "failed-sat"
+						o.Solver = "z3-new"
+						o.Output = aa.out
+						o.Model = groundModel(cfg, ground, g)
+						return
+					}
 				}
 				q := Query(as, g, false)
 				if len(q) > 4<<20 {
@@ -307,4 +314,20 @@ func splitGoal(g *Term) []*Term {
 		return out
 	}
 	return []*Term{g}
+}
+
+
+func groundModel(cfg *SolverCfg, assump []*Term, goal *Term) string {
+	q := "(set-option :produce-models true)\n" + QueryGround(assump, goal) + "(get-model)\n"
+	id := atomic.AddInt64(&solverSeq, 1)
+	file := filepath.Join(cfg.WorkDir, fmt.Sprintf("gm%06d.smt2", id))
+	if err := os.WriteFile(file, []byte(q), 0o644); err != nil {
+		return ""
+	}
+	defer os.Remove(file)
+	a := runSolver(context.Background(), "z3-new", file, cfg.Full)
+	if a.status == "sat" {
+		return a.out
+	}
+	return ""
 }
